@@ -474,3 +474,54 @@ func (v Vec) String() string {
 	}
 	return "[" + strings.Join(parts, " | ") + "]"
 }
+
+// Subst replaces every atom a of f by m(a); atoms for which m reports false are kept. The result is Top
+// when f is Top or a replacement is Top (the support is the union of the replacements' supports).
+func (f Form) Subst(m func(Atom) (Form, bool)) Form {
+	res := Form{C: f.C}
+	top := f.Top
+	if top {
+		res.C = false
+	}
+	var support []Atom
+	for _, a := range f.Atoms {
+		g, ok := m(a)
+		if !ok {
+			g = AtomForm(a)
+		}
+		if top || g.Top {
+			top = true
+			support = append(support, g.Atoms...)
+			support = append(support, res.Atoms...)
+			res = Form{}
+			continue
+		}
+		res = res.Xor(g)
+	}
+	if top {
+		return TopForm(append(support, res.Atoms...)...)
+	}
+	return res
+}
+
+// Subst applies Form.Subst to every bit.
+func (v Vec) Subst(m func(Atom) (Form, bool)) Vec {
+	o := make(Vec, len(v))
+	for i := range v {
+		o[i] = v[i].Subst(m)
+	}
+	return o
+}
+
+// SignExt widens to width bits replicating the most significant bit.
+func (v Vec) SignExt(width int) Vec {
+	if width <= len(v) || len(v) == 0 {
+		return v.Resize(width)
+	}
+	o := make(Vec, width)
+	copy(o, v.clone())
+	for i := len(v); i < width; i++ {
+		o[i] = v[len(v)-1].clone()
+	}
+	return o
+}
